@@ -77,6 +77,12 @@ const GET_TERM_SIZE: &[u8] = b"\x1b[18t\x1b[14t";
 /// what the user types: letters that occur in no reply of the emulator, so that a reply
 /// torn apart by interleaved typing can not be mistaken for typed input
 const TYPED: &[u8] = b"ABCDEFHIJLMNQSTUVWXYZ";
+/// multi-byte characters used in pasted text (a read of the tty may end inside one)
+const PASTED: [char; 3] = ['é', '宽', '🤩'];
+
+fn typed_char(c: char) -> bool {
+    (c.is_ascii() && TYPED.contains(&(c as u8))) || PASTED.contains(&c)
+}
 
 #[derive(Clone, Debug, PartialEq, Eq)]
 enum Ev {
@@ -195,7 +201,8 @@ struct Kernel {
     /// replies the emulator garbled (their content can not be held against the library)
     mangled_replies: u64,
     quit_raised: u64,
-    typed: Vec<u8>,
+    /// characters the user has typed so far (at delivery into the tty input queue)
+    typed: Vec<char>,
     /// events that ran while the app was inside poll
     in_poll: bool,
     events_in_poll: u64,
@@ -500,7 +507,7 @@ impl Kernel {
                 let now = self.now;
                 self.src.log(|| format!("t={}us {}: {:?}", now / US, who, String::from_utf8_lossy(&bytes)));
                 if who == "user" {
-                    self.typed.extend_from_slice(&bytes);
+                    self.typed.extend(String::from_utf8_lossy(&bytes).chars());
                 }
                 self.in_queue.extend(bytes);
             }
@@ -1084,7 +1091,7 @@ impl App {
                 match &event {
                     Some(TerminalEvent::Key(key)) => {
                         if let KeyName::Char(c) = key.name {
-                            if key.mode.is_empty() && c.is_ascii() && TYPED.contains(&(c as u8)) {
+                            if key.mode.is_empty() && typed_char(c) {
                                 self.keys.push(c);
                             }
                         }
@@ -1203,7 +1210,7 @@ impl App {
                 ));
             }
         }
-        let typed: Vec<char> = k.typed[start.typed..].iter().map(|b| *b as char).collect();
+        let typed: Vec<char> = k.typed[start.typed..].to_vec();
         let keys: Vec<char> = self.keys[start.keys..].to_vec();
         if typed != keys {
             return Err(violation(
@@ -1512,12 +1519,29 @@ fn session(ctx: &Ctx, kernel: &K) -> WorldResult {
             9 => {
                 // user types keys
                 let mut k = kernel.borrow_mut();
-                let n = 1 + k.src.draw(6) as usize;
                 let mut bytes = Vec::new();
-                for _ in 0..n {
-                    let c = TYPED[typed_total % TYPED.len()];
-                    typed_total += 1;
-                    bytes.push(c);
+                if k.src.chance(1, 8) {
+                    // pasted text: longer than the 1024-byte read buffer of poll, with
+                    // multi-byte characters, so that reads end inside characters
+                    let n = 300 + k.src.draw(1200) as usize;
+                    let mut text = String::new();
+                    for i in 0..n {
+                        typed_total += 1;
+                        if (typed_total + i) % 3 == 0 {
+                            text.push(PASTED[typed_total % PASTED.len()]);
+                        } else {
+                            text.push(TYPED[typed_total % TYPED.len()] as char);
+                        }
+                    }
+                    bytes.extend_from_slice(text.as_bytes());
+                    k.src.fault("pasted-text-longer-than-the-read-buffer");
+                } else {
+                    let n = 1 + k.src.draw(6) as usize;
+                    for _ in 0..n {
+                        let c = TYPED[typed_total % TYPED.len()];
+                        typed_total += 1;
+                        bytes.push(c);
+                    }
                 }
                 let delay = k.src.draw(3000) as u64 * US;
                 k.schedule(delay, Ev::Input(bytes, "user"));
@@ -1676,7 +1700,7 @@ fn session(ctx: &Ctx, kernel: &K) -> WorldResult {
                     match event {
                         Some(TerminalEvent::Key(key)) => {
                             if let KeyName::Char(c) = key.name {
-                                if key.mode.is_empty() && c.is_ascii() && TYPED.contains(&(c as u8)) {
+                                if key.mode.is_empty() && typed_char(c) {
                                     app.keys.push(c);
                                 }
                             }
@@ -1803,7 +1827,7 @@ fn session(ctx: &Ctx, kernel: &K) -> WorldResult {
     if prop == "C17" && boundary_clean && healthy {
         let k = kernel.borrow();
         // typed input arrives completely and in order
-        let typed: Vec<char> = k.typed.iter().map(|b| *b as char).collect();
+        let typed: Vec<char> = k.typed.clone();
         if app.keys != typed {
             return Err(violation(
                 "C17",
